@@ -23,6 +23,7 @@ from .. import dl, engine_tie, gen_dl, lib, prog
 PROP = "C07"
 PROP_FILE = "Props/C07.v"
 KEY = "generated_names_capture_user_identifiers"
+KEY_A = "repeated_var_of_attached_binding_does_not_compile"
 FUEL = 200
 CORPUS = os.path.join(lib.VERIF, "corpus", "C07.jsonl")
 
@@ -115,7 +116,17 @@ def coq_group(c, cs):
     return exprs, inv, R, o
 
 
+def ensure_coq():
+    """the modules the evaluation imports (Show.v is not in the closure of the property file)"""
+    with lib.Lock("coq"):
+        lib.coq_makefile()
+        rc, out = lib.sh(["timeout", "1500", "make", "-j%d" % lib.NCPU, "Syntax/Show.vo", "Syntax/C07Vocab.vo", "Syntax/ToCore.vo", "Engine/Strat.vo", "Engine/Vocab.vo"], cwd=lib.COQ, timeout=1600)
+    if rc:
+        raise lib.Infra("cannot build the Coq modules of the C07 tie:\n" + out[-3000:])
+
+
 def run_cases(cases, tag="c07", coq_timeout=50):
+    ensure_coq()
     for k, c in enumerate(cases):
         c["idx"] = k
         c["text"] = G.program_text(c["prog"])
@@ -131,9 +142,10 @@ def run_cases(cases, tag="c07", coq_timeout=50):
         d = dumps.get(c["id"], {})
         c["front"] = d
         if d.get("status") == "ok":       # a program the front end rejects / panics on is not handed to rustc
-            # programs with adversarial names may fail to compile: their own crate, so that blaming them does not
-            # rebuild everything else
-            (adv_jobs if c.get("adversarial") else jobs).append(dict(id=c["id"] + "_s", text=c["text"], macro="ascent", rels=c["prog"]["rels"], scripts=scripts))
+            # programs with adversarial names (and those hitting the known compile-time defect) may fail to compile:
+            # their own crate, so that blaming them does not rebuild everything else
+            risky = c.get("adversarial") or c.get("corpus") or G.shape_attached_repeat(c["prog"])
+            (adv_jobs if risky else jobs).append(dict(id=c["id"] + "_s", text=c["text"], macro="ascent", rels=c["prog"]["rels"], scripts=scripts))
         jobs.append(dict(id=c["id"] + "_e", text=c["expanded_text"], macro="ascent", rels=c["prog"]["rels"], scripts=scripts))
     groups, meta = [], []
     for c in cases:
@@ -146,12 +158,19 @@ def run_cases(cases, tag="c07", coq_timeout=50):
 
     def build():
         t1 = time.time()
-        out = prog.build_and_run(tag, jobs)
+        out = prog.build_and_run(tag, jobs, nbins=min(2 * lib.NCPU, max(1, len(jobs) // 4)), run_timeout=240)
         timing["prog_main"] = round(time.time() - t1, 1)
         if adv_jobs:
             t1 = time.time()
-            out.update(prog.build_and_run(tag + "a", adv_jobs, nbins=min(lib.NCPU, len(adv_jobs))))
+            out.update(prog.build_and_run(tag + "a", adv_jobs, nbins=min(lib.NCPU, len(adv_jobs)), run_timeout=240))
             timing["prog_adversarial"] = round(time.time() - t1, 1)
+        # a binary that exceeds its time budget loses the results of all its programs: run those again, one binary each
+        again = [j for j in jobs + adv_jobs if any(isinstance(r, dict) and r.get("timeout") for r in out.get(j["id"], []))]
+        if again:
+            t1 = time.time()
+            out.update(prog.build_and_run(tag + "r", again, nbins=min(4 * lib.NCPU, len(again)), run_timeout=240))
+            timing["prog_rerun_after_timeout"] = round(time.time() - t1, 1)
+            timing["prog_rerun_jobs"] = len(again)
         return out
     with cf.ThreadPoolExecutor(2) as ex:
         fut = ex.submit(build)
@@ -211,6 +230,16 @@ def model_captures(p, drules):
             if gen & user:
                 return True
     return False
+
+
+def compile_defect(c, iv_s, i2, spec):
+    """known defect A (regression of the repeated-variable fix 9ade31e): the sugared program does not compile with
+    E0277 `&i32 == i32`, the program has a variable bound by a condition attached to an earlier clause that is repeated
+    inside a later clause, and the hand expansion compiles and computes the relations of the Coq surface denotation"""
+    es = iv_s.get("compile_error", "") if isinstance(iv_s, dict) else ""
+    if "E0277" in es and "can't compare `&i32` with `i32`" in es and G.shape_attached_repeat(c["prog"]) and i2 is not None and i2 == spec:
+        return KEY_A
+    return None
 
 
 def compare(c, stats):
@@ -282,7 +311,15 @@ def compare(c, stats):
         else:
             stats["structure_compared"] += 1
     elif status == "ok":
-        raise lib.Infra("front dump of %s has no hir_rules" % c["id"])
+        # the driver desugars a second time for the dump, from the counter state the first desugaring left
+        why = front.get("plan_err") or front.get("plan_panic")
+        if why is None:
+            raise lib.Infra("front dump of %s has no hir_rules" % c["id"])
+        if wf:
+            mism.append(dict(case=dict(base), impl=dict(second_desugaring=why), model=None, spec="a well-formed program desugars from every counter state", kind="impl_violates_spec", known=None,
+                             what="the macro accepts the program, but desugaring it again in the same process (other counter state) fails: %s" % why))
+        else:
+            stats["structure_not_compared_second_desugaring_failed_on_captured_name"] += 1
     # ---- behaviour
     if status != "ok":
         mism.append(dict(case=dict(base, input=c["inputs"][0]), impl=dict(front=status, errors=front.get("errors"), panic=front.get("panic")), model=None, spec=dict(surface=S[0]),
@@ -294,9 +331,17 @@ def compare(c, stats):
         cs = dict(base, input=inp)
         i1 = impl_sets(c["impl_s"][k] if c["impl_s"] else None, rels)
         i2 = impl_sets(c["impl_e"][k] if c["impl_e"] else None, rels)
+        if any(isinstance(r, dict) and r.get("timeout") for r in ((c["impl_s"] or [None] * (k + 1))[k], (c["impl_e"] or [None] * (k + 1))[k])):
+            stats["skipped_compiled_program_too_slow"] += 1      # (also after the one-binary-per-program rerun)
+            continue
         if i1 is None:
-            mism.append(dict(case=cs, impl=c["impl_s"][k] if c["impl_s"] else None, model=None, spec=dict(surface=S[k]), kind="impl_violates_spec", known=known,
+            kd = compile_defect(c, c["impl_s"][k] if c["impl_s"] else None, i2, S[k])
+            if kd:
+                stats["compile_defect:" + kd] += 1
+            mism.append(dict(case=cs, impl=c["impl_s"][k] if c["impl_s"] else None, model=None, spec=dict(surface=S[k]), kind="impl_violates_spec", known=kd or known,
                              what="the sugared program did not produce a result (compile error / panic / timeout): %s" % json.dumps(c["impl_s"][k] if c["impl_s"] else None)[:300]))
+            if isinstance(c["impl_s"][k] if c["impl_s"] else None, dict) and "compile_error" in c["impl_s"][k]:
+                break          # one report per program that does not compile
             continue
         if i2 is None:
             mism.append(dict(case=cs, impl=c["impl_e"][k] if c["impl_e"] else None, model=None, spec=dict(surface=S[k]), kind="impl_violates_spec", known=None,
@@ -338,12 +383,12 @@ def tie(tier, seed, replay):
         if c.get("adversarial"):
             progs_with["adversarial_names"] += 1
             for nm in c["adversarial"]:
-                feats["adversarial:" + ("stem_" if nm not in G.NASTY_FIXED else "") + (nm if nm in G.NASTY_FIXED else nm[-2:].lstrip("x0123456789"))] += 1
+                feats["adversarial:" + (nm if nm in G.NASTY_FIXED else "<var>" + nm[nm.rindex("_"):])] += 1
     samples = [c["text"] for c in cases if not c.get("corpus")][:3] + [c["text"] for c in cases if c.get("adversarial") and not c.get("corpus")][:2]
     exp_sample = [dict(sugared=c["text"], hand_expansion=c["expanded_text"]) for c in cases if c["feats"].get("disj") and c["feats"].get("repeated_var")][:1]
     return dict(
         evaluations=stats["evaluations"], distinct_nontrivial=stats["distinct"],
-        rule="generated sugared programs (relations on levels, negation only downwards) x 2-3 input databases; counted: (program, input) pairs on which the sugared program through macro+rustc, its python hand expansion through macro+rustc, the Coq surface denotation and the Coq desugared core program all produced relations, and whose program uses >= 2 distinct sugar forms among %s" % ", ".join(G.SUGAR_FORMS),
+        rule="generated sugared programs (relations on levels, negation only downwards) x 2-3 input databases; counted: (program, input) pairs on which the sugared program through macro+rustc, its python hand expansion through macro+rustc, and the Coq surface denotation all produced relations (the Coq desugared core program is compared on top, it must agree when wf_surface holds), and whose program uses >= 2 distinct sugar forms among %s" % ", ".join(G.SUGAR_FORMS),
         samples=samples + exp_sample,
         distribution=dict(programs=len(cases), occurrences=dict(feats), programs_using=dict(progs_with), outcome=dict(stats)),
         mismatches=mism,
